@@ -35,7 +35,7 @@ CHECKS = {
     "C14": ("recorded outputs of fresh interpreters under different hash seeds, offline byte comparison", "4.C14",
             "Every tool/library output for each (tool, options, input) triple is recorded under 3 (quick) / 6 (thorough) hash seeds plus an in-process repetition and compared byte for byte; several related inputs handled in a row by one interpreter must print what a fresh interpreter prints for each; external pair lists with same-rank conflicts through the adapter; an input whose base type cannot be decided from its atoms inside a batch; format conversion in a row; FR3D listings with repeated rows; a nearly identical input right after the original; eight crossing helices (8! notations); a chain numbered from zero with competing pairs; chains named A / a numbered alike with a nucleotide paired into both; the witness is the first differing line."),
     "C15": ("differential twins: 2 reader generations x 2 formats compared as maps with each other and the abstract table", "4.C15",
-            "Residue sets, atom sets, coordinates, pairwise connectivity (also exactly on the 2.4 A limit, where the readers must agree with each other), connected segments and |chi| from four readings of the same single-conformer table must agree; zero occupancies, five-digit serials, caller-side reordering of atom lists, asterisk spelling of primes, residues lacking one atom of the chi definition (the same residues must have a chi in every reading), nucleic-acid-only readings."),
+            "Residue sets, atom sets, coordinates, pairwise connectivity (also exactly on the 2.4 A limit, where the readers must agree with each other), connected segments and |chi| from four readings of the same single-conformer table must agree; zero occupancies, five-digit serials, caller-side reordering of atom lists, asterisk spelling of primes, residues lacking one atom of the chi definition (the same residues must have a chi in every reading), nucleic-acid-only readings; mmCIF members whose label_comp_id differs from auth_comp_id."),
     "C16": ("contract on all_dot_brackets + Grundy-colouring enumerator as reference model", "4.C16",
             "Set equality between the library's list and an independent enumeration of greedy-stable assignments, exhaustive over pairings up to N plus random multi-component knots, groups of exactly eight stems and sparse groups of nine (ten in thorough) stems; structures obtained from 3D and through the external-tool adapter."),
     "C17": ("contract on find_clashes (all 32 option combinations) + O(n^2) reference + in-process CLI with parsed stdout/CSV", "4.C17",
